@@ -107,6 +107,7 @@ class Panoptica_Aggregator:
                 # empty file
                 print("Output file given is empty, will start with header")
                 continue_file = True
+                _write_content(output_file, [header])
             else:
                 # TODO should also hash panoptica_evaluator just to make sure! and then save into header of file
                 assert header_hash == hash(
